@@ -479,6 +479,7 @@ func checkC05(c *Ctx, r *Report) {
 
 	// ---- C05-block
 	blockRule(c, r, pr, "C05-block")
+	frameLenRule(c, r, pr, "C05-framelen")
 
 	// ---- C05-sid
 	r.Rule("C05-sid", 1, "handshake requires B2")
